@@ -2,7 +2,6 @@ package snapshots
 
 import (
 	"fmt"
-	"log/slog"
 	"maps"
 	"slices"
 
@@ -77,7 +76,8 @@ func (s *jobSnapshot) addSourceRunnerSnapshot(ckpt *jobpb.SourceRunnerCheckpoint
 		return fmt.Errorf("received source runner checkpoint with unknown id id=%s, expectedIDs=%v", ckpt.SourceRunnerId, ids)
 	}
 	if wasCompleted {
-		slog.Warn("received another source runner checkpoint from same id", "id", ckpt.SourceRunnerId)
+		// Don't merge the split states of a duplicate into the checkpoint
+		return fmt.Errorf("received another checkpoint (%d) from source runner (%s) that already sent one", ckpt.CheckpointId, ckpt.SourceRunnerId)
 	}
 
 	s.sourceRunnerIDsComplete[ckpt.SourceRunnerId] = true
